@@ -50,6 +50,43 @@ class _BytesLit(ast.NodeTransformer):
 _CODE = {}
 
 
+_LOGGING = []
+
+
+def _logging_facade():
+    """The real logging module, except that basicConfig only sets the level (no handler on the harness's stderr)."""
+    if not _LOGGING:
+        import logging
+        ns = types.ModuleType("logging")
+        ns.__dict__.update({k: v for k, v in vars(logging).items() if not k.startswith("__")})
+
+        def basicConfig(**kw):
+            if "level" in kw and kw["level"] is not None:
+                logging.getLogger().setLevel(kw["level"])
+        ns.basicConfig = basicConfig
+        logging.lastResort = None
+        _LOGGING.append(ns)
+    return _LOGGING[0]
+
+
+def _reset_logging():
+    """`logging` is the real module (its records go nowhere that matters), but its configuration is process state:
+    a new World is a new process, so the root logger goes back to its defaults and every torrentfile logger to NOTSET."""
+    import logging
+    root = logging.getLogger()
+    for h in list(root.handlers):
+        root.removeHandler(h)
+    root.setLevel(logging.WARNING)
+    logging.disable(logging.NOTSET)
+    for name, lg in list(logging.Logger.manager.loggerDict.items()):
+        if name.startswith("torrentfile") and isinstance(lg, logging.Logger):
+            lg.setLevel(logging.NOTSET)
+            for h in list(lg.handlers):
+                lg.removeHandler(h)
+            lg.disabled = False
+            lg.propagate = True
+
+
 def source_of(mod):
     with open(_os.path.join(PKG, mod + ".py"), encoding="utf-8") as f:
         return f.read()
@@ -365,6 +402,7 @@ class World:
         self.argv = argv or ["torrentfile"]
         self.stdout = _Out()
         HEX.clear()
+        _reset_logging()
         self._models = self._build_models()
         self._bi = self._builtins()
 
@@ -679,6 +717,8 @@ class World:
         if name in self._models:
             top = name.split(".")[0]
             return self._models[name] if fromlist else self._models[top]
+        if name == "logging":
+            return _logging_facade()
         if name in INERT or name.split(".")[0] in INERT:
             return _bi.__import__(name, globals, locals, fromlist, level)
         return _Proxy(name)
